@@ -18,7 +18,7 @@ func Spec() ev.Spec {
 func body(r *ev.Run) {
 	r.Rule("a peer-book sequence is non-trivial if it contains at least one refusal (banned / per-host / total) and at least one done of an admitted peer; " +
 		"one outbound/persistent peer in ten stops half way through the handshake (it sends its version and never acknowledges the service's); " +
-		"address selection (monitor 4): p2putil.NewAddressFunc over the real address manager with address books in which every address is on a non-default port / was tried a moment ago / both: within 400 calls (the connection manager asks again whenever a draw of 100 comes back empty) an address of a group not yet connected to must be handed out; wiring (monitor 5): the real server against one scripted node whose first connection goes away before its version / between version and verack / right after the handshake / mid-sync - the service must dial again (no connection, an address known and not one dial attempt in 75 s = the slot is lost); " +
+		"address selection (monitor 4): p2putil.NewAddressFunc over the real address manager with address books in which every address is on a non-default port / was tried a moment ago / both: within 400 calls (the connection manager asks again whenever a draw of 100 comes back empty) an address of a group not yet connected to must be handed out; wiring (monitor 5): the real server against one scripted node whose first connection goes away before its version / between version and verack / right after the handshake / mid-sync / after two version messages instead of version + verack - the service must dial again (no connection, an address known and not one dial attempt in 75 s = the slot is lost); " +
 		"re-ban cases: a host is banned (3 s), the ban elapses with no connection attempt of that host, a peer of the host connected since before gets it banned again, and a newcomer of that host asks for admission at once; " +
 		"a connection-manager scenario is non-trivial if at least one dial was refused and at least one Disconnect/Remove was issued; " +
 		"distinct = distinct (flavour, length bucket, set of refusal reasons and limit states reached) resp. (flavour, target, refusal rate, ban configuration, rounds)")
@@ -56,7 +56,7 @@ func body(r *ev.Run) {
 		i := i
 		r.Do(id, func() { runAddrPickCase(r, id, i) })
 	}
-	for i := 0; i < r.Pick(8, 64); i++ {
+	for i := 0; i < r.Pick(10, 80); i++ {
 		id := fmt.Sprintf("wiring/%05d", i)
 		i := i
 		r.Do(id, func() { runWiringCase(r, id, i) })
@@ -73,7 +73,7 @@ func body(r *ev.Run) {
 		r.Do(id, func() { runAddrMgrScaleCase(r, id, i) })
 	}
 	r.Require("am_books_with_overflowing_tried_buckets", 3)
-	r.Require("wiring_replacements_observed", 6)
+	r.Require("wiring_replacements_observed", 8)
 	r.Require("am_getaddress_calls", 500)
 	r.Require("address_picks_ok", 100)
 	r.Require("am_bans_of_tried_address", 50)
